@@ -44,9 +44,11 @@ static void set_world(int pres, int seed)
     if (op < 4) {
       _Bool ia = 0; uint8_t ib = 0; uint8_t *ra = pres ? vf_ps_insert(a_obj, elt, &ia) : vf_gs_insert(a_obj, elt, &ia), *rb = pres ? gen_vf_ps_insert(b_obj, elt, &ib) : gen_vf_gs_insert(b_obj, elt, &ib);
       EQ((int)ia, (int)(ib & 1));
-      if (!ia) { EQ(ra - (uint8_t*)(pres ? vf_ps_arr(a_obj) : vf_gs_arr(a_obj)), rb - (uint8_t*)(pres ? gen_vf_ps_arr(b_obj) : gen_vf_gs_arr(b_obj))); }
-      else if (asz == 0) { EQ(ra - (uint8_t*)(pres ? vf_ps_arr(a_obj) : vf_gs_arr(a_obj)), rb - (uint8_t*)(pres ? gen_vf_ps_arr(b_obj) : gen_vf_gs_arr(b_obj))); }   /* first element: a fresh array */
-      else { EQ(ra - aa, rb - bb); }      /* the returned iterator is relative to the array the search ran on (old array when reallocated) */
+      { /* position of the returned iterator: relative to the live array when it points into it, else relative to the array the search ran on */
+        uint8_t *na = pres ? vf_ps_arr(a_obj) : vf_gs_arr(a_obj), *nb = pres ? gen_vf_ps_arr(b_obj) : gen_vf_gs_arr(b_obj);
+        long oa = (ra >= na && ra <= na + 32 * es) ? ra - na : 100000 + (ra - aa), ob = (rb >= nb && rb <= nb + 32 * es) ? rb - nb : 100000 + (rb - bb);
+        EQ(oa, ob);
+      }
     } else if (op < 6) {
       uint8_t *ra = pres ? vf_ps_find_k(a_obj, key) : vf_gs_find_k(a_obj, key), *rb = pres ? gen_vf_ps_find_k(b_obj, key) : gen_vf_gs_find_k(b_obj, key); EQ(ra - aa, rb - bb);
     } else if (op < 7) {
